@@ -523,6 +523,7 @@ where for<'x> &'x R: RingOps<R> {
     let (hr, hc): (usize, usize) = (bl.iter().map(|b| b.m).sum(), bl.iter().map(|b| b.n).sum());
     let mut reply = String::from("panic");
     let mut identity_ok = false;
+    let mut conn_ok: Option<bool> = None;
     if perm_ok {
         let ad = Dn::from_sp(a);
         let mut pm = Dn::<R>::zero(m, n);
@@ -539,6 +540,7 @@ where for<'x> &'x R: RingOps<R> {
         if sz == 0 {
             let conn = bl.iter().all(connected_bipartite);
             s.oracle(conn, "no returned block splits further (input stores no explicit zero)", &req, &txts[0].clone().unwrap_or_default());
+            conn_ok = Some(conn);
         }
         if fits {
             // canonical partition
@@ -560,6 +562,12 @@ where for<'x> &'x R: RingOps<R> {
     s.case(&chk, if identity_ok { "1" } else { "0" }, bl.len() >= 2);
     // the model's own decomposition judged by the same checker
     s.case(&format!("decompchk {} {}", R::TAG, sp_req(a)), "1", bl.len() >= 2);
+    if let Some(c) = conn_ok {
+        // connectivity of the real blocks / of the model's blocks by the verified connectivity check
+        s.case(&format!("chkconn {} {}{}", R::TAG, blreq.len(), blreq.iter().map(|b| format!(" {}", b)).collect::<String>()),
+            if c { "1" } else { "0" }, bl.len() >= 1);
+        s.case(&format!("decompconn {} {}", R::TAG, sp_req(a)), "1", bl.len() >= 1);
+    }
 }
 
 fn gen_decomp<R: HR>(s: &mut Sink, r: &mut Rng, pools: &Pools, big: bool)
@@ -760,7 +768,7 @@ fn main() {
     guarded_case(&mut s, "corpus", |s| corpus(s, &pools));
 
     let th = args.thorough();
-    let (n_solve, n_schur, n_decomp, n_uf) = if th { (60000, 24000, 30000, 120000) } else { (5000, 2000, 2400, 8000) };
+    let (n_solve, n_schur, n_decomp, n_uf) = if th { (120000, 48000, 60000, 240000) } else { (5000, 2000, 2400, 8000) };
     for i in 0..n_solve {
         let (nmax, kmax) = if th && i % 3 == 0 { (40, 40) } else if th { (14, 12) } else { (10, 8) };
         match i % 4 {
